@@ -68,6 +68,14 @@ def determinism():
     b = [agg([pool, "run", "7", str(i * 5000), str(i * 5000 + 5000)]) for i in range(4)]
     print("pool-sim   20000 runs in 4 chunks, twice:", "identical" if a == b and None not in a else "DIFFERENT %r %r" % (a, b))
     bad += a != b or None in a
+    bp = os.path.join(bdir, "plain", "scn-blockproc")
+    import hashlib as _h
+    def whole(cmd):
+        p = subprocess.run(cmd, stdout=subprocess.PIPE, stderr=subprocess.PIPE, timeout=1800)
+        return p.returncode, _h.sha256(p.stdout).hexdigest()
+    x, y = whole([bp, "run", "11", "0", "30"]), whole([bp, "run", "11", "0", "30"])
+    print("blockproc  30 workloads x 24 variants twice (every RUN/VIOL/STAT line):", "identical" if x == y and x[0] == 0 else "DIFFERENT %r %r" % (x, y))
+    bad += x != y or x[0] != 0
     with common.Scratch("det") as cd:
         images, _ = c10.make_images(bdir, 4242, cd, 1)
         for eng in ("scn-reader", "scn-copy"):
